@@ -260,6 +260,21 @@ FIX["chain"] = lambda: topology(N("Machine", 0, [
         io=[HostBridge([PCI("0000:00:02.0", cls="0300", io=[OSDev("pkg-card", 4)])], bus=(0, 0x3f))]),
 ], misc=[Misc("machine-misc")], io=[OSDev("machine-orphan", 16)], mem=[NUMA(2, mem=1 << 27)]))
 
+# 5c. support bits in the file (every name, value 1): what IMPORT_SUPPORT brings into the topology
+def _support():
+    names = ["discovery.pu", "discovery.numa", "discovery.numa_memory", "discovery.disallowed_pu", "discovery.disallowed_numa", "discovery.cpukind_efficiency",
+             "cpubind.set_thisproc_cpubind", "cpubind.get_thisproc_cpubind", "cpubind.set_proc_cpubind", "cpubind.get_proc_cpubind",
+             "cpubind.set_thisthread_cpubind", "cpubind.get_thisthread_cpubind", "cpubind.set_thread_cpubind", "cpubind.get_thread_cpubind",
+             "cpubind.get_thisproc_last_cpu_location", "cpubind.get_proc_last_cpu_location", "cpubind.get_thisthread_last_cpu_location",
+             "membind.set_thisproc_membind", "membind.get_thisproc_membind", "membind.set_proc_membind", "membind.get_proc_membind",
+             "membind.set_thisthread_membind", "membind.get_thisthread_membind", "membind.alloc_membind", "membind.set_area_membind",
+             "membind.get_area_membind", "membind.get_area_memlocation", "membind.firsttouch_membind", "membind.bind_membind",
+             "membind.interleave_membind", "membind.weighted_interleave_membind", "membind.nexttouch_membind", "membind.migrate_membind",
+             "custom.exported_support"]
+    return topology(N("Machine", 0, [Pkg(0, [Core(0, [PU(0), PU(1)])], mem=[NUMA(0)])]),
+                    tail=['<support name="%s" value="1"/>' % n for n in names])
+FIX["support"] = _support
+
 # 6. I/O tree: host bridge > PCI bridge > PCI devices > OS devices of every type combination
 def _io():
     devs = []
